@@ -280,6 +280,66 @@ def _include_mark_sources(R):
     return out
 
 
+def markdown_summary(SF, doc, url, meta_summary=None, conv_summary=None, doc_list=("x",)):
+    """The real `FortranBase.markdown` on a bare entity with a stand-in for the Markdown instance: the first
+    `convert` (the comment) returns `doc`, the second one (the `summary:` metadata, if the code converts it)
+    returns `conv_summary`.  Returns (meta.summary, texts handed to convert)."""
+    from ford.settings import EntitySettings
+
+    class _Bare(SF.FortranBase):
+        filename = "bare.f90"
+
+        def __init__(self):
+            pass
+
+        def get_url(self):
+            return url
+
+    class _Md:
+        def __init__(self):
+            self.handed = []
+
+        def reset(self):
+            return self
+
+        def convert(self, text, context=None, **kw):
+            self.handed.append(text)
+            return doc if len(self.handed) == 1 else conv_summary
+
+    e = _Bare()
+    e.doc_list = list(doc_list)
+    e.name = "bare"
+    e.obj = "variable"
+    e.meta = EntitySettings()
+    e.meta.summary = meta_summary
+    md = _Md()
+    e.markdown(md)
+    if getattr(e, "doc", None) != doc:
+        raise ValueError("FortranBase.markdown: `doc` is not what convert returned")
+    return e.meta.summary, md.handed
+
+
+def _read_more_template(SF):
+    """The constant text before / after the URL in the link that `FortranBase.markdown` appends to a shortened
+    summary, by probing with two URLs; checks on the way that nothing is appended when the summary is the whole
+    documentation or when the entity has no URL."""
+    doc = "<p>first</p>\n<p>second</p>"
+    got = []
+    for url in ("proc/alpha.html", "module/beta.html#variable-gamma"):
+        sm, _ = markdown_summary(SF, doc, url)
+        if not isinstance(sm, str) or not sm.startswith("<p>first</p>") or sm.count(url) != 1:
+            raise ValueError(f"FortranBase.markdown: unexpected summary {sm!r} for a two-paragraph doc with URL {url!r}")
+        rest = sm[len("<p>first</p>"):]
+        got.append((rest[:rest.index(url)], rest[rest.index(url) + len(url):]))
+    if got[0] != got[1] or not got[0][0]:
+        raise ValueError(f"FortranBase.markdown: the link appended to a shortened summary is not <const> url <const>: {got}")
+    if markdown_summary(SF, "<p>only</p>", "proc/alpha.html")[0] != "<p>only</p>":
+        raise ValueError("FortranBase.markdown: a link is appended although the summary is the whole documentation")
+    if markdown_summary(SF, doc, None)[0] != doc:
+        raise ValueError("FortranBase.markdown: an entity without URL does not get its whole documentation as summary")
+    return got[0]
+
+
 def extract():
     common.import_ford()
     import ford.sourceform as SF
@@ -307,8 +367,9 @@ def extract():
         if not IDENT.match(a):
             raise ValueError(f"unexpected attribute name {a!r}")
     inc = _include_mark_sources(R)
+    rm = _read_more_template(SF)
     return {"types": list(types.items()), "fields": fields, "indent": indent, "skip_attrs": skip, "correlate_set": cset,
-            "include_marks": inc}
+            "include_marks": inc, "read_more": rm}
 
 
 def render(t) -> str:
@@ -333,6 +394,10 @@ def render(t) -> str:
             "    reader, `.inr s` = the constant `s` -/",
             "def includeMarkSrc : List (Sum Nat Str) := [" +
             ", ".join(f".inl {v}" if k == "outer" else f".inr {_chars(v)}" for k, v in t["include_marks"]) + "]",
+            "",
+            "/-- `FortranBase.markdown`: the text before / after the URL in the link appended to a shortened summary (probed) -/",
+            f"def readMorePre : Str := {_chars(t['read_more'][0])}",
+            f"def readMoreSuf : Str := {_chars(t['read_more'][1])}",
             "", "end Ford.Gen", ""]
     return "\n".join(out)
 
